@@ -29,10 +29,13 @@ type scenario struct {
 	// Rearchive: all passes run in one long-lived operator process and the user may set the
 	// archived ObjectSet back to Active (the API allows it) and archive it again
 	Rearchive bool `json:"rearchive"`
+	// AdmissionFaults: budget of "admission for one managed object starts answering every write
+	// and dry run with a reason-less 500" (and may heal again)
+	AdmissionFaults int `json:"admissionFaults"`
 }
 
 func (sc scenario) name() string {
-	return fmt.Sprintf("B1 phases=%d delegated=%03b archive=%v holds=%v restarts=%d takeover=%v conflicts=%d rearchive=%v", sc.N, sc.Mask, sc.Archive, sc.Holds, sc.Restarts, sc.TakeOver, sc.Conflicts, sc.Rearchive)
+	return fmt.Sprintf("B1 phases=%d delegated=%03b archive=%v holds=%v restarts=%d takeover=%v conflicts=%d rearchive=%v admissionFaults=%d", sc.N, sc.Mask, sc.Archive, sc.Holds, sc.Restarts, sc.TakeOver, sc.Conflicts, sc.Rearchive, sc.AdmissionFaults)
 }
 
 func system(sc scenario) *world.System {
@@ -64,6 +67,7 @@ func system(sc scenario) *world.System {
 			w.Budget["user"] = 1
 			w.Budget["restart"] = sc.Restarts
 			w.Budget["conflict"] = sc.Conflicts
+			w.Budget["admission"] = sc.AdmissionFaults
 			if sc.TakeOver {
 				w.Budget["takeover"] = 1
 			}
@@ -104,6 +108,27 @@ func system(sc scenario) *world.System {
 					evs = append(evs, world.Event{Name: "user:archive-again:r1", Apply: func(w *world.World) *world.Pass {
 						w.Budget["rearchive"]--
 						osw.SetLifecycle(w, "r1", "Archived")
+						return nil
+					}})
+				}
+			}
+			for _, k := range w.S.SortedKeys() {
+				if k.Group != world.TestGroup {
+					continue
+				}
+				k := k
+				if _, broken := w.S.Admission[k]; broken {
+					evs = append(evs, world.Event{Name: "admission:heals:" + k.Kind + "/" + k.Name, Apply: func(w *world.World) *world.Pass {
+						delete(w.S.Admission, k)
+						return nil
+					}})
+				} else if w.Budget["admission"] > 0 {
+					evs = append(evs, world.Event{Name: "admission:breaks:" + k.Kind + "/" + k.Name, Apply: func(w *world.World) *world.Pass {
+						w.Budget["admission"]--
+						if w.S.Admission == nil {
+							w.S.Admission = map[kmodel.Key]string{}
+						}
+						w.S.Admission[k] = "noreason"
 						return nil
 					}})
 				}
@@ -324,6 +349,7 @@ func scenarios(quick bool) []scenario {
 			out = append(out,
 				scenario{N: 2, Mask: m, Archive: arch, Holds: []string{"b"}, Restarts: 1, TakeOver: true, Conflicts: 1},
 				scenario{N: 2, Mask: m, Archive: arch, Holds: []string{"a", "g"}, Restarts: 1, Conflicts: 1},
+				scenario{N: 2, Mask: m, Archive: arch, AdmissionFaults: 1},
 			)
 		}
 		for _, m := range []uint{0, 0b010, 0b101, 0b111} {
@@ -348,7 +374,7 @@ func scenarios(quick bool) []scenario {
 
 func run(o checks.Opts) *report.Report {
 	rep := report.New("C04", "bfs")
-	rep.Rule = "explicit-state BFS to closure from the fully rolled-out state: user deletes or archives the ObjectSet, then reconcile(ObjectSet / each ObjectSetPhase), finalizer holder releasing foreign finalizers, garbage collector, third party making another ObjectSet the controller of b, (budgeted) an operator crash before request i of a pass for every i, and (budgeted) another actor's write to the target landing just before write i of a pass for every i (delete precondition / update conflict); (one system: all passes in one long-lived operator process, the archived ObjectSet set back to Active and archived again); monitors on every delete / finalizer removal / Archived=True write and an invariant on every state"
+	rep.Rule = "explicit-state BFS to closure from the fully rolled-out state: user deletes or archives the ObjectSet, then reconcile(ObjectSet / each ObjectSetPhase), finalizer holder releasing foreign finalizers, garbage collector, third party making another ObjectSet the controller of b, (budgeted) an operator crash before request i of a pass for every i, and (budgeted) another actor's write to the target landing just before write i of a pass for every i (delete precondition / update conflict); (budgeted) admission for one managed object starting to answer every write and dry run with a reason-less 500 and healing again, (one system: all passes in one long-lived operator process, the archived ObjectSet set back to Active and archived again); monitors on every delete / finalizer removal / Archived=True write and an invariant on every state"
 	scs := scenarios(o.Quick())
 	rep.Bounds["systems"] = len(scs)
 	for i, sc := range scs {
